@@ -51,6 +51,8 @@ class SimInverter:
         if self.fill == "constw":
             # every register holds the same word: all multi-register fields (at any alignment) and all sensors see
             # the same raw value, e.g. every bitmap sensor the same code word
+            if getattr(self, "const_word", None) is not None:
+                return self.const_word
             return (0x0001, 0x0200, 0x8001, 0x0003, 0x4000, 0x0101, 0x8000, 0x00FF)[self.seed % 8]
         if self.fill in ("sp32a", "sp32b"):
             # special 32-bit patterns (IEEE infinities / NaN, integer extremes, sentinels) in aligned register pairs;
